@@ -13,7 +13,8 @@ Reading rules (anything else fails loudly = broken obligation):
 * statements are parsed structurally (blocks, for/while with or without braces, if/else); every call
   MPI_Pack_size(1, T, ..) / MPI_Pack(p, 1, T, ..) / MPI_Unpack(buf, n, &pos, p, 1, T, ..) is recorded with the headers
   of the loops that enclose it;
-* field types: MPI_INT, MPI_CHAR, MPITraits<GlobalIndex>::getType();
+* field types: MPI_INT, MPI_CHAR, MPITraits<GlobalIndex>::getType(), or a variable declared as
+  `MPI_Datatype name = <one of these>;`
 * grouping: in packAndSend / recvAndUnpack by loop depth (0 header, 1 per index, >= 2 per pair); in
   calculateMessageSizes the loop over the neighbours is ignored and the group is decided by the counter named in the
   innermost loop header (`publish` per index, `pairs` per pair), outside those loops = header.
@@ -82,6 +83,17 @@ def _args(s):
 _CALL = re.compile(r"\b(MPI_Pack_size|MPI_Pack|MPI_Unpack)\s*\(")
 
 
+def _aliases(src):
+    """`MPI_Datatype name = <expr>;` anywhere in the file: name stands for <expr> (one level is resolved)"""
+    out = {}
+    for m in re.finditer(r"\bMPI_Datatype\s+(\w+)\s*=\s*([^;{}]+);", src):
+        out[m.group(1)] = re.sub(r"\s+", "", m.group(2))
+    return out
+
+
+_ALIAS = {}
+
+
 def _calls_in(text, loops, rec):
     for m in _CALL.finditer(text):
         j = _match(text, m.end() - 1, "(", ")")
@@ -91,6 +103,7 @@ def _calls_in(text, loops, rec):
         if len(a) <= pos[1] or a[pos[0]] != "1":
             raise TranslateError("%s: unexpected argument list %r" % (fn, a))
         t = re.sub(r"\s+", "", a[pos[1]])
+        t = _ALIAS.get(t, t)
         if t not in TYPES:
             raise TranslateError("%s: unknown field type %r" % (fn, t))
         rec.append((fn, TYPES[t], list(loops)))
@@ -181,6 +194,8 @@ def _lean(name, g):
 
 def translate(repo):
     src = _strip(open(os.path.join(repo, SRC)).read())
+    _ALIAS.clear()
+    _ALIAS.update(_aliases(src))
     size = _layout(_body(src, r"void\s+IndicesSyncer<T>::calculateMessageSizes\s*\(\s*\)"), "MPI_Pack_size", True)
     pack = _layout(_body(src, r"void\s+IndicesSyncer<T>::packAndSend\s*\("), "MPI_Pack", False)
     unpack = _layout(_body(src, r"void\s+IndicesSyncer<T>::recvAndUnpack\s*\("), "MPI_Unpack", False)
